@@ -131,6 +131,10 @@ var SimplePatterns = []Pat{
 	{"/c6/?opt", []string{"/c6", "/c6/opt"}, nil}, // two leaves, one handler slice
 }
 
+// StaticPaths aim at the tree the conc engine serves through Static (both slash forms of a
+// directory included).
+var StaticPaths = []string{"/sub", "/sub/", "/app.js", "/index.html", "/assets/sub", "/assets/sub/", "/assets/app.js", "/sub/index.html", "/assets/"}
+
 // Hostile are request paths aimed at nothing in particular.
 var Hostile = []string{"/nope", "//", "/%zz", "/u/\x00", "/f/../u/x", "/static/../static", "", "/a/b/c/d/e/f/g/h/i/j", "/u/%2e%2e/x", "/ünï/cödé"}
 
